@@ -68,6 +68,7 @@ type Sim struct {
 	ties           bool              // tie-prone flavour: stake amounts from a small set
 	bigGas bool // mainnet-scale gas price: some gas limits make gas x price exceed 64 bits
 	scriptKeep *TxSpec // a scripted transaction kept for a later block of the same scenario
+	scriptOldGas uint64 // a scripted scenario's memory of the minimum gas before its proposal
 	scriptMiss     [][]byte          // validators a script reports as not having signed the previous block
 }
 
